@@ -97,7 +97,12 @@ func amsterdamConfig() *params.ChainConfig {
 }
 
 // tinyKeys are slot keys whose keccak starts with two zero bytes; found once per
-// process by a fixed, deterministic search.
+// process by a fixed, deterministic search. A "skew" contract owns all of them: the
+// first (capped) storage answer then holds only keys below 0x0001.., the syncer's
+// estimate of the remaining slots explodes and it splits the contract into
+// storageConcurrency chunks although the contract is small.
+const nTinyKeys = 10
+
 var (
 	tinyOnce sync.Once
 	tinyKeys []common.Hash
@@ -107,7 +112,7 @@ func findTinyKeys() {
 	tinyOnce.Do(func() {
 		var k common.Hash
 		copy(k[:], "snapsim-tiny")
-		for i := uint64(0); len(tinyKeys) < 4; i++ {
+		for i := uint64(0); len(tinyKeys) < nTinyKeys; i++ {
 			binary.BigEndian.PutUint64(k[24:], i)
 			h := crypto.Keccak256(k[:])
 			if h[0] == 0 && h[1] == 0 {
@@ -192,9 +197,10 @@ func buildGenesis(sp *StatePlan) (*core.Genesis, []*ecdsa.PrivateKey, []common.A
 		st := make(map[common.Hash]common.Hash, slots)
 		if skew && slots > 0 {
 			findTinyKeys()
-			k := tinyKeys[len(contracts)%len(tinyKeys)]
-			st[k] = randValue(r)
-			c.keys = append(c.keys, k)
+			for _, k := range tinyKeys {
+				st[k] = randValue(r)
+				c.keys = append(c.keys, k)
+			}
 		}
 		for len(st) < slots {
 			k := common.BytesToHash(r.Bytes(32))
